@@ -563,6 +563,9 @@ func (o *Oracles) onState(in *Instance, st raft.RaftState, term uint64) {
 			o.w.violate("C01", "R1", "C01/R1/two-leaders-in-one-term", "term %d: %s and %s both became leader", term, prev, sid)
 		}
 		o.leaderOf[term] = sid
+		// a winner counted its own vote for this term (a candidate whose own
+		// vote could not be persisted sends requests but never tallies)
+		o.grant(in.Srv, term, sid, "won the election")
 		// C03/R1 leader completeness against the durable state
 		d := in.disk
 		snap := d.SnapIndex()
@@ -737,11 +740,6 @@ func (o *Oracles) onRequest(m *Msg, target *Instance) {
 		}
 	case KTimeout:
 		o.timeoutNows[m.To] = append(o.timeoutNows[m.To], o.w.Now())
-	case KVote:
-		// the candidate voted for itself in this term
-		if s := o.w.Servers[m.From]; s != nil {
-			o.grant(s, m.Term, m.From, "self-vote")
-		}
 	}
 }
 
